@@ -339,17 +339,52 @@ def _group_filters(draw, w, g, version, hit, provider=None, collective=None,
             g.in_tree = draw(st.sampled_from(w.providers + [gen.GHOST_RP]))
 
 
+def _subtree_family(draw, w):
+    """Three suffixed groups aimed at providers of ONE tree, tied by one or
+    two (usually overlapping) same_subtree constraints - the shape in which
+    'each repeat of same_subtree is independent' matters."""
+    by_root = {}
+    for (p, rc) in sorted(w.inv):
+        if any(w.has_room(p, rc, x) for x in range(1, 16)):
+            by_root.setdefault(w.root[p], []).append((p, rc))
+    trees = [r for r, prs in sorted(by_root.items())
+             if len({p for p, _ in prs}) >= 2]
+    if not trees:
+        return None
+    root = draw(st.sampled_from(trees))
+    pairs = by_root[root]
+    groups = []
+    for s in ('_A', '_B', '_C'):
+        p, rc = draw(st.sampled_from(pairs))
+        good = [x for x in range(1, 16) if w.has_room(p, rc, x)]
+        groups.append(Group(s, {rc: draw(st.sampled_from(good[:3]))}))
+    q = Query(groups, group_policy=draw(st.sampled_from(['none', 'none',
+                                                         'isolate'])))
+    sets = draw(st.sampled_from([
+        [{'_A', '_B'}, {'_B', '_C'}], [{'_A', '_B'}, {'_A', '_C'}],
+        [{'_A', '_C'}, {'_B', '_C'}], [{'_A', '_B', '_C'}],
+        [{'_A', '_B'}], [{'_A', '_B'}, {'_B', '_C'}, {'_A', '_C'}]]))
+    q.same_subtree = [set(x) for x in sets]
+    q.aimed = True
+    return q
+
+
 @st.composite
 def queries(draw, d, version, rich=False):
     """A valid allocation-candidates query for microversion 1.<version> over
     the names of the scope, biased towards what the state can satisfy."""
     w = World(d)
     w.rich = rich
+    if version >= 36 and not rich and draw(st.integers(0, 9)) < 2:
+        q = _subtree_family(draw, w)
+        if q is not None:
+            return q
     hit = draw(st.integers(0, 9)) < 9 or rich
     inv_pairs = sorted(w.inv)
     groups = []
     have_unsuffixed = version < 25 or draw(st.integers(0, 9)) < 7
-    nsuff = 0 if version < 25 else draw(st.sampled_from([0, 0, 1, 1, 2, 2, 3]))
+    nsuff = 0 if version < 25 else draw(st.sampled_from(
+        [0, 0, 1, 1, 2, 2, 3] if version < 36 else [0, 1, 1, 2, 2, 3, 3]))
     if not have_unsuffixed and nsuff == 0:
         have_unsuffixed = True
     if hit:
@@ -473,9 +508,16 @@ def queries(draw, d, version, rich=False):
             members = set(resourceless) | set(draw(st.lists(
                 st.sampled_from(suff), max_size=2, unique=True)))
             q.same_subtree.append(members)
-        elif len(suff) >= 2 and draw(st.integers(0, 9)) < 4:
+        elif len(suff) >= 2 and draw(st.integers(0, 9)) < 6:
             q.same_subtree.append(set(draw(st.lists(
                 st.sampled_from(suff), min_size=2, max_size=3, unique=True))))
+            if len(suff) >= 3 and draw(st.booleans()):
+                # a second, independent constraint (the parameter may be
+                # repeated; each repeat is treated on its own), usually
+                # overlapping the first one
+                q.same_subtree.append(set(draw(st.lists(
+                    st.sampled_from(suff), min_size=2, max_size=2,
+                    unique=True))))
     # a resourceless-only query is not valid: ensure one group has resources
     if not any(g.resources for g in groups):
         groups[0].resources['VCPU'] = 1
